@@ -348,6 +348,8 @@ def call(inst, cfg, kktsolver_obj=None):
         if cfg.get('via') != 'global':
             solvers.options.clear()          # (a leak into the globals is then only visible to the 'global' route)
     okw = {'options': opts}
+    if cfg.get('poison') is not None:
+        solvers.options.update(cfg['poison'])    # global settings that a call with its own options= dictionary must not see
     if cfg.get('via') == 'global':
         for k_, v_ in opts.items():
             solvers.options.setdefault(k_, v_)   # what a leaking prelude left behind stays in place
@@ -355,6 +357,14 @@ def call(inst, cfg, kktsolver_obj=None):
     ps, ds = starts(inst, cfg)
     d = a['dims']
     entry = cfg.get('entry', 'conelp')
+    if cfg.get('start') == 'warm':
+        # warm start from the solution of a previous conelp solve of the same instance (both start points given and
+        # already optimal: the main loop stops at its first test); not available -> no start points
+        from mc import cvx as _cvx
+        r0, _ = call(inst, dict(cfg, start=None, entry='conelp', prelude=None, via=None, poison=None, solver=None))
+        if isinstance(r0, dict) and r0.get('status') == 'optimal':
+            ps = {'x': +r0['x'], 's': +r0['s']}
+            ds = {'y': +r0['y'], 'z': +r0['z']}
     kw = {}
     if cfg.get('solver'):
         kw['solver'] = cfg['solver']
